@@ -102,6 +102,12 @@ def execute(mode: str, threads, schedule=(), complete=True, chooser=None, glue=N
     import odc.geo.cog._s3 as S3
 
     run = Run(mode, threads)
+    for _cls in ("Variable", "Lock"):      # resolve the installed signatures before the fake module goes in
+        if _cls not in _INSTALLED_SIG:
+            try:
+                bind_like_installed(_cls, (), {})
+            except TypeError:
+                pass
     sched = Scheduler(watchdog=watchdog)
 
     class FakeS3:
@@ -160,8 +166,9 @@ def execute(mode: str, threads, schedule=(), complete=True, chooser=None, glue=N
     client = Client() if mode == "cluster" else None
 
     class Var:
-        def __init__(self, name=None, client=None):
-            self.name, self.client = name, client
+        def __init__(self, *args, **kwargs):
+            b = bind_like_installed("Variable", args, kwargs)   # TypeError exactly when the installed class would
+            self.name, self.client = b.get("name"), (b.get("client") or client)
 
         def set(self, value, timeout=None):
             sched.event("var:set")
@@ -180,17 +187,24 @@ def execute(mode: str, threads, schedule=(), complete=True, chooser=None, glue=N
                 run.deleted_at = sched.step_index() if sched.current() is not None else -1
 
     class DLock:
-        def __init__(self, name=None, client=None):
-            self._l = client.locks.setdefault(name, SchedLock(sched, "dlock"))
+        def __init__(self, *args, **kwargs):
+            b = bind_like_installed("Lock", args, kwargs)
+            owner = b.get("client") or client
+            self._l = owner.locks.setdefault(b.get("name"), SchedLock(sched, "dlock"))
+            rpc = b.get("scheduler_rpc")
+            # the installed Lock talks to whatever it is given as scheduler_rpc; a Client is not one
+            self._broken = None if rpc is None else f"'{type(rpc).__name__}' object has no attribute 'semaphore_register'"
 
         def acquire(self, *a, **kw):
+            if self._broken:
+                raise AttributeError(self._broken)
             return self._l.acquire()
 
         def release(self):
             self._l.release()
 
         def __enter__(self):
-            self._l.acquire()
+            self.acquire()
             return self
 
         def __exit__(self, *exc):
@@ -266,6 +280,35 @@ def execute(mode: str, threads, schedule=(), complete=True, chooser=None, glue=N
         else:
             sys.modules.pop("distributed", None)
     return run
+
+
+_INSTALLED_SIG: dict = {}
+
+
+def bind_like_installed(cls_name: str, args, kwargs) -> dict:
+    """Bind constructor arguments the way the INSTALLED distributed.<cls_name> would (so the fakes
+    reject / misroute exactly the calls the real classes would); (name=None, client=None) if
+    distributed cannot be imported."""
+    import inspect
+
+    if cls_name not in _INSTALLED_SIG:
+        sig = None
+        try:
+            saved = sys.modules.get("distributed")
+            if isinstance(saved, types.ModuleType) and not hasattr(saved, "__file__"):
+                sys.modules.pop("distributed")      # one of our fakes is installed right now
+            try:
+                import distributed as real
+                sig = inspect.signature(getattr(real, cls_name))
+            finally:
+                if saved is not None:
+                    sys.modules["distributed"] = saved
+        except Exception:  # pylint: disable=broad-except
+            sig = None
+        if sig is None:
+            sig = inspect.signature(lambda name=None, client=None: None)
+        _INSTALLED_SIG[cls_name] = sig
+    return dict(_INSTALLED_SIG[cls_name].bind(*args, **kwargs).arguments)
 
 
 def glue_reads(kind: str) -> bool:
@@ -818,6 +861,8 @@ def run(out, tier, scratch):
     try:
         # 0. corpus first
         for rp in core.corpus(ID):
+            if rp.get("predicate") == "real_cluster":
+                continue        # starts threads: replayed after the process pool has done its work (section 4b)
             ok, detail = replay_one(rp, scratch)
             out.count("corpus")
             out.case(("corpus", rp["_file"]), True)
@@ -905,6 +950,40 @@ def run(out, tier, scratch):
         violate("c18:local_lock", detail, {"predicate": "local_lock", "observed": detail})
 
     phase("limits")
+    # 4b. oracle validation: the installed distributed.Variable / Lock accept how _s3.py uses them
+    from vlib import c18_cluster
+    import odc.geo.cog._s3 as S3mod
+    ok, detail = c18_cluster.static_contract(Path(S3mod.__file__))
+    out.case(("static_contract",), True)
+    if ok is None:
+        out.notes.append("static distributed contract check skipped: " + detail)
+    else:
+        out.oblige("oracle:_s3.py constructs distributed.Variable/Lock as the installed signatures require (AST vs inspect)",
+                   "oracle", ok, detail)
+        if not ok:
+            violate("c18:cluster-contract", detail, {"predicate": "static_contract", "observed": detail,
+                                                     "expected": "every call binds; a client is only passed as `client`"})
+    for rp in core.corpus(ID):
+        if rp.get("predicate") == "real_cluster":
+            ok, detail = replay_one(rp, scratch)
+            out.count("corpus")
+            out.case(("corpus", rp["_file"]), True)
+            if not ok:
+                violate(f"c18:corpus:{rp['_file']}", f"{rp['_file']}: {detail}", {k: v for k, v in rp.items() if k != "_file"})
+    rc = c18_cluster.real_cluster_check(rounds=3 if tier == "quick" else 10, nwriters=6)
+    out.case(("real_cluster", rc["status"]), True)
+    out.count("real-cluster:" + rc["status"])
+    if rc["status"] == "skipped":
+        out.notes.append("real in-process dask cluster validation SKIPPED: " + rc["detail"])
+    else:
+        out.oblige("oracle:cluster path on a real in-process distributed cluster (one initiation, one id, no task fails)",
+                   "oracle", rc["status"] == "ok", rc["detail"])
+        out.notes.append(f"real in-process cluster: {len(rc['runs'])} objects x 6 concurrent first writes + finalise: {rc['status']}")
+        if rc["status"] != "ok":
+            violate("c18:cluster-real", rc["detail"], {"predicate": "real_cluster", "rounds": 1, "nwriters": 4,
+                                                        "observed": rc["detail"],
+                                                        "expected": "exactly one create_multipart_upload per object, every part under it, no task fails"})
+    phase("real cluster")
     # 5. the model on everything
     fails = eval_cases(cases, Path(scratch))
     detail = ""
@@ -963,6 +1042,15 @@ def replay_one(rp, scratch=None):
         return p_s3_limits()[:2]
     if kind == "local_lock":
         return p_local_lock()
+    if kind == "real_cluster":
+        from vlib import c18_cluster
+        rc = c18_cluster.real_cluster_check(rounds=rp.get("rounds", 1), nwriters=rp.get("nwriters", 4))
+        return rc["status"] != "fail", (rc["detail"] or f"{rc['status']}: {rc['runs']}")
+    if kind == "static_contract":
+        from vlib import c18_cluster
+        import odc.geo.cog._s3 as S3mod
+        ok, detail = c18_cluster.static_contract(Path(S3mod.__file__))
+        return ok is not False, detail
     raise ValueError(f"unknown predicate {kind}")
 
 
